@@ -529,7 +529,9 @@ func (svr *Server) getSession(svc *service, req *message.ConnectMessage, resp *m
 	// If CleanSession is NOT set, check the session store for existing session.
 	// If found, return it.
 	if !req.CleanSession() {
-		if svc.sess, err = svr.sessMgr.Get(cid); err == nil {
+		// Only state kept from a CleanSession=0 connection can be resumed.
+		if sess, err := svr.sessMgr.Get(cid); err == nil && !sess.Cmsg.CleanSession() {
+			svc.sess = sess
 			resp.SetSessionPresent(true)
 
 			if err := svc.sess.Update(req); err != nil {
